@@ -1,9 +1,122 @@
 import Driver.Util
 open Lean Replicat
 namespace Driver.HRetry
+open Replicat.Retry
+
+def parseBackend (s : String) : Except String Backend :=
+  match s with
+  | "local" => pure .local
+  | "s3" => pure .s3
+  | "b2" => pure .b2
+  | _ => throw s!"unknown backend {s}"
+
+def parseFault (j : Json) : Except String Fault := do
+  let k ← getStr j "kind"
+  match k with
+  | "pre" => pure .pre
+  | "mktemp" => pure .mktemp
+  | "src" => pure (.src (← getNat j "j"))
+  | "mid" => pure (.mid (← getNat j "j"))
+  | "sink" => pure (.sink (← getNat j "j"))
+  | "trunc" => pure .trunc
+  | "cut" => pure (.cut (← getNat j "k"))
+  | "status" => pure (.status (← getNat j "code") ((getBool j "ra").toOption.getD false))
+  | "lost" => pure .lost
+  | "rename" => pure .rename
+  | _ => throw s!"unknown fault kind {k}"
+
+/-- optional field: absent = keep, `null` = none, number = some -/
+def optNatField (j : Json) (k : String) (dflt : Option Nat) : Except String (Option Nat) :=
+  match j.getObjVal? k with
+  | .error _ => pure dflt
+  | .ok Json.null => pure none
+  | .ok v => do pure (some (← v.getNat?))
+
+def boolField (j : Json) (k : String) (dflt : Bool) : Except String Bool :=
+  match j.getObjVal? k with
+  | .error _ => pure dflt
+  | .ok v => v.getBool?
+
+/-- `"cfg": {…}` overrides single fields of the extracted configuration (used for the what-if runs of the harness) -/
+def parseCfg (base : Cfg) (j : Json) : Except String Cfg :=
+  match j.getObjVal? "cfg" with
+  | .error _ => pure base
+  | .ok o => do
+    pure { base with
+      maxTries := ← optNatField o "maxTries" base.maxTries
+      upRewind := ← optNatField o "upRewind" base.upRewind
+      downRewind := ← optNatField o "downRewind" base.downRewind
+      digestRewind := ← optNatField o "digestRewind" base.digestRewind
+      reauthLimit := ← optNatField o "reauthLimit" base.reauthLimit
+      downTruncate := ← boolField o "downTruncate" base.downTruncate
+      upUnlink := ← boolField o "upUnlink" base.upUnlink
+      upCatchAll := ← boolField o "upCatchAll" base.upCatchAll
+      downCatchAll := ← boolField o "downCatchAll" base.downCatchAll }
+
+def errStr : Err → String
+  | .os => "os"
+  | .transport => "transport"
+  | .status c _ => s!"status:{c}"
+  | .auth => "auth"
+
+def outcomeStr : Outcome → String
+  | .ok => "ok"
+  | .error e => errStr e
+  | .fuel => "fuel"
+
+def optBytes : Option Bytes → Json
+  | some b => Json.str (hex b)
+  | none => Json.null
+
+def optNat : Option Nat → Json
+  | some n => jnat n
+  | none => Json.null
+
+def cfgJson (c : Cfg) : Json := Json.mkObj [
+  ("maxTries", optNat c.maxTries), ("catches", Json.bool c.catches), ("giveupStatus", optNat c.giveupStatus),
+  ("upRewind", optNat c.upRewind), ("upCatchAll", Json.bool c.upCatchAll), ("upUnlink", Json.bool c.upUnlink),
+  ("upDecorated", Json.bool c.upDecorated), ("downRewind", optNat c.downRewind), ("downCatchAll", Json.bool c.downCatchAll),
+  ("downTruncate", Json.bool c.downTruncate), ("downDecorated", Json.bool c.downDecorated), ("digestRewind", optNat c.digestRewind),
+  ("hookAuthStatus", optNat c.hookAuthStatus), ("plainRetryStatus", optNat c.plainRetryStatus),
+  ("handlerRaisesAuth", Json.bool c.handlerRaisesAuth), ("handlerSleepsRetryAfter", Json.bool c.handlerSleepsRetryAfter),
+  ("upRequiresAuth", Json.bool c.upRequiresAuth), ("downRequiresAuth", Json.bool c.downRequiresAuth),
+  ("reauthOnAuthRequired", Json.bool c.reauthOnAuthRequired), ("reauthLimit", optNat c.reauthLimit), ("budget", jnat c.budget)]
+
 /-- requests `retry.*` (see DESIGN.md Appendix A) -/
 def handleRetry (op : String) (j : Json) : Except String Json := do
   match op with
+  | "retry.cfg" =>
+    let b ← parseBackend (← getStr j "backend")
+    pure (cfgJson (cfgOf b))
+  | "retry.run" =>
+    let b ← parseBackend (← getStr j "backend")
+    let cfg ← parseCfg (cfgOf b) j
+    let dir ← getStr j "dir"
+    let data ← getBytes j "data"
+    let c ← getNat j "chunk"
+    if c = 0 then throw "chunk size 0 is outside the model"
+    let fuel ← getNat j "fuel"
+    let plan ← (← getArr j "plan").toList.mapM parseFault
+    match dir with
+    | "up" =>
+      let pos0 := (getNat j "pos0").toOption.getD 0
+      let declared := (getNat j "declared").toOption.getD data.length
+      let old ← match j.getObjVal? "old" with
+        | .ok (Json.str s) => do pure (some (← unhex s))
+        | _ => pure none
+      let r := runUp b cfg c fuel plan data pos0 declared old
+      pure (Json.mkObj [("outcome", Json.str (outcomeStr r.outcome)), ("attempts", jnat r.attempts), ("sleeps", jnat r.sleeps),
+        ("reauths", jnat r.reauths), ("received", natArr r.received), ("visible", optBytes r.final.visible),
+        ("history", Json.arr (r.history.map optBytes).toArray), ("pos", jnat r.final.src.pos), ("temps", jnat r.final.temps)])
+    | "down" =>
+      let sink0 := (getBytes j "sink").toOption.getD []
+      let spos0 := (getNat j "spos").toOption.getD 0
+      let file := (getBool j "file").toOption.getD false
+      let r := runDown b cfg c fuel plan data sink0 spos0 file
+      pure (Json.mkObj [("outcome", Json.str (outcomeStr r.outcome)), ("attempts", jnat r.attempts), ("sleeps", jnat r.sleeps),
+        ("reauths", jnat r.reauths), ("received", natArr r.received), ("sink", Json.str (hex r.final.buf)),
+        ("pos", jnat r.final.pos)])
+    | _ => throw s!"unknown direction {dir}"
   | _ => throw s!"unknown op {op}"
 
 end Driver.HRetry
